@@ -212,8 +212,7 @@ Definition last_row_max (f : filled) (l1 : Z) : Z * Z * Z :=
                  (nth (Z.to_nat (l1 - 1)) (f_vals f) []) ((0, 0, 0), 0)).
 
 (* NewPwAligner + Set* + Alignment(); None = error (character outside the alphabet) *)
-Definition align_pair (atg : bool) (sc : scheme) (s1 s2 : list byte) : option result :=
-  let which := pick_matrix s1 s2 in
+Definition align_pair_with (which : Z) (atg : bool) (sc : scheme) (s1 s2 : list byte) : option result :=
   let t1 := if atg then rev s1 else s1 in
   let t2 := if atg then rev s2 else s2 in
   match all_some (map (char_pos which) t1), all_some (map (char_pos which) t2) with
@@ -235,3 +234,6 @@ Definition align_pair (atg : bool) (sc : scheme) (s1 s2 : list byte) : option re
                     (tb_match st) (tb_mis st) (tb_gaps st) (tb_match st + tb_mis st + tb_gaps st))
   | _, _ => None
   end.
+
+Definition align_pair (atg : bool) (sc : scheme) (s1 s2 : list byte) : option result :=
+  align_pair_with (pick_matrix s1 s2) atg sc s1 s2.
